@@ -12,7 +12,7 @@ open Precis Precis.Step Precis.Gen.Prof Precis.Gen.Std Precis.Gen.Ucd16
 set_option maxRecDepth 1000000
 
 /-! searchability of the generated tables (C15 "searchable", precondition of every look-up lemma) -/
-theorem sorted_spaceSeparator : sortedTable spaceSeparatorL = true := by decide +kernel
+theorem sorted_profSpaceSeparator : sortedTable spaceSeparatorL = true := by decide +kernel
 theorem sorted_bidi : sortedTable (bidiClassTableL.map (·.1)) = true := by decide +kernel
 theorem sorted_width : sortedTable (wideNarrowMappingL.map (·.1)) = true := by decide +kernel
 theorem sorted_upper : sortedPairs isUppercaseTabL = true := by decide +kernel
